@@ -62,3 +62,21 @@ def replay_tr(p,repo):
   if not r: print("the contract holds: NOT reproduced"); return 0
   for x in r: print("FAILED     :",x)
   return 1
+
+def replay_repl(p,repo):
+  if repo not in sys.path: sys.path.insert(0,repo)
+  from zoo import replcheck
+  print("check      : replace_component vs a from-scratch build"); print("scenario   :",p['case'])
+  r=replcheck.check_case(repo,p['case'],p.get('seed',0))
+  if not r: print("the contract holds: NOT reproduced"); return 0
+  for f in r: print("FAILED     :",f)
+  return 1
+
+def replay_clq(p,repo):
+  if repo not in sys.path: sys.path.insert(0,repo)
+  from zoo import clqcheck
+  c=p['case']; print("check      : cycle-level queue against the FIFO / ready table"); print("scenario   :",c,"seed",p['seed'])
+  r=clqcheck.run_case(repo,c['kind'],c['n'],c['order'],p['seed'])
+  if not r: print("the contract holds: NOT reproduced"); return 0
+  for f in r: print("FAILED     :",f)
+  return 1
